@@ -566,3 +566,114 @@ def char_map(prog, path, regions, arg, with_self=False, full=False):
         finally:
             bitsem.QMIN, bitsem.QMAX = 0, 1 << 58
     return out
+
+
+# ------------------------------------------------------------------ finite function tables by evaluation (signal identifier maps)
+class TabInterp(CharInterp):
+    """Concrete-argument evaluation of a pure lookup function: named constant tables are materialised from their constant bodies,
+    `find` / `position` / `any` over them run the predicate closure on each element."""
+    _consts = {}
+
+    def operand(self, st, o):
+        if o["k"] == "const" and "val" not in o and (o.get("s") in self.prog.constbodies or o.get("s") in self.prog.promoted):
+            v = self.const_value(st, o["s"])
+            return v
+        return GInterp.operand(self, st, o)
+
+    def const_value(self, st, path):
+        key = (id(self.prog), path)
+        if key not in TabInterp._consts:
+            from facts import Fn
+            cb = self.prog.constbodies.get(path) or self.prog.promoted[path]
+            rec = {"rec": "fn", "path": path + "::{const}", "kind": "Const", "loc": {"file": "", "line": 0}, "site": {"file": "", "line": 0}, "argc": 0,
+                   "generics": [], "impl": None, "pub": False, "locals": cb["locals"], "debug": [], "blocks": cb["blocks"]}
+            f = Fn(rec)
+            it = TabInterp(self.prog, f, 64)
+            s2 = State()
+            r = it.run_fn(s2)
+            # a reference to an array local of the constant's frame: copy the elements out
+            val = r
+            if isinstance(r, Ref) and r.loc[0] == "local":
+                val = it._get(s2, r.loc)
+                if isinstance(val, Ref):
+                    val = it._get(s2, val.loc)
+            if isinstance(val, Ref) and val.loc[0] == "aslice":
+                val = val.loc[1][val.loc[2]:val.loc[3]]
+            TabInterp._consts[key] = val
+        val = TabInterp._consts[key]
+        if isinstance(val, (list, GVec)):
+            slot = -900 - (abs(hash(path)) % 50)
+            st.locals[slot] = GVec([(1, x) for x in val]) if isinstance(val, list) else GVec(list(val.items))
+            return Ref(("local", slot, (), st.frame))
+        return val
+
+    def cast(self, v, src_ty, dst_ty):
+        if isinstance(v, Ref):
+            return v
+        return CharInterp.cast(self, v, src_ty, dst_ty)
+
+    def compare(self, op, x, y):
+        if isinstance(x, int) and isinstance(y, int):
+            return {"Eq": x == y, "Ne": x != y, "Lt": x < y, "Le": x <= y, "Gt": x > y, "Ge": x >= y}[op] and 1 or 0
+        return CharInterp.compare(self, op, x, y)
+
+    def call(self, st, t):
+        c = t.get("resolved") or t["callee"]
+        short = c.rsplit("::", 1)[-1]
+        if short in ("find", "position", "any") and "Iterator" in c:
+            args = [self.operand(st, a) for a in t["args"]]
+            itobj = self._get(st, args[0].loc) if isinstance(args[0], Ref) else args[0]
+            clo = args[1]
+            if isinstance(itobj, VecIter) and isinstance(clo, Closure):
+                idx = 0
+                while itobj.pos < len(itobj.vec.items):
+                    v = itobj.vec.items[itobj.pos][1]
+                    itobj.pos += 1
+                    slot = -400 - itobj.pos
+                    st.locals[slot] = v
+                    item = Ref(("local", slot, (), st.frame))
+                    a = item
+                    if short == "find":
+                        st.locals[slot - 200] = item
+                        a = Ref(("local", slot - 200, (), st.frame))      # find's predicate takes &Self::Item
+                    r = self.exec_closure(st, clo, [a])
+                    if isinstance(r, BV):
+                        r = r.concrete()
+                    if not isinstance(r, int):
+                        raise Undecided("predicate result is not concrete")
+                    if r:
+                        if short == "find":
+                            return Adt("core::option::Option", 1, "Some", [item])
+                        if short == "position":
+                            return Adt("core::option::Option", 1, "Some", [idx])
+                        return 1
+                    idx += 1
+                if short == "any":
+                    return 0
+                return Adt("core::option::Option", 0, "None", [])
+        if short in ("eq", "ne") and c in self.prog.fns:
+            args = [self.operand(st, a) for a in t["args"]]
+            return self.exec_fn(st, self.prog.fns[c], args)
+        if c in ("core::option::Option::<T>::map", "core::option::Option::<T>::copied", "core::option::Option::<T>::cloned"):
+            args = [self.operand(st, a) for a in t["args"]]
+            o = args[0]
+            if isinstance(o, Adt) and o.vname == "None":
+                return o
+            if isinstance(o, Adt) and o.vname == "Some":
+                if short in ("copied", "cloned"):
+                    x = o.fields[0]
+                    return Adt("core::option::Option", 1, "Some", [self._get(st, x.loc) if isinstance(x, Ref) else x])
+                if isinstance(args[1], Closure):
+                    return Adt("core::option::Option", 1, "Some", [self.exec_closure(st, args[1], [o.fields[0]])])
+        return CharInterp.call(self, st, t)
+
+
+def eval_fn(prog, path, args):
+    """Evaluate a pure crate function on concrete abstract values.  Returns the abstract result."""
+    f = prog.fn(path)
+    it = TabInterp(prog, f, 64)
+    it.choices = {"full": False}
+    st = State()
+    for i, a in enumerate(args):
+        st.locals[i + 1] = a
+    return it.run_fn(st)
